@@ -6,18 +6,22 @@ META = {
     'id': 'C11',
     'level': 'proof',
     'technique': 'Coq proof (content conservation + flush reaches every sink, by nested induction over the handler tree, '
-                 'for every history and every buffering policy) instantiated at the flush structure translated from the '
-                 'source + child processes of the real library killed by qFatal/SIGKILL compared with the extracted model',
+                 'for every history of messages, explicit flushes and reconfigurations and every buffering policy) instantiated at the '
+                 'flush structure translated from the source in BOTH preprocessor configurations (default, QTLOGGER_NO_THREAD) + child '
+                 'processes of the real library (both builds) killed by qFatal/SIGKILL compared with the extracted model',
     'text': 'Theorems (Properties_C11.v): for every handler tree of the synchronous logger (file sinks, filters, nested pipelines, '
             'a sink on a full device), every history and every QFile buffering policy, after qFatal the file of every healthy '
             'file sink = previous content + every record that passed the filters in front of it (the fatal one iff it passes); '
+            'for histories with explicit flush() calls and run-time reconfiguration (append/sendToFile on the logger or an existing nested '
+            'pipeline, remove, clearSinks) the files of the FINAL configuration = those of the logger without any buffering; the same for '
+            'the source as compiled with -DQTLOGGER_NO_THREAD (the flush must be reachable in every configuration); '
             're-checked on every run against where/when Logger::processMessage flushes, what recursiveFlush reaches and what '
             'FileSink::flush does as read from the source; the real library is run in child processes that die by SIGABRT '
             '(and by SIGKILL without a fatal message, to validate the buffering model) and the files are compared with the '
             'extracted model and with the extracted boolean oracle.',
     'note': 'Trusted: Coq 8.16.1 kernel (vm_compute only on the closed configuration check and witnesses), no axioms; '
             'tools/s2c/fatal.py (statement-level reading of logger.cpp, simplepipeline.cpp, filesink.cpp, iodevicesink.cpp, '
-            'rotatingfilesink.cpp; QTLOGGER_NO_THREAD undefined); extraction (ExtrOcamlBasic) + ocaml/drv_fatal.ml; '
+            'rotatingfilesink.cpp, each function read once with QTLOGGER_NO_THREAD undefined and once defined); extraction (ExtrOcamlBasic) + ocaml/drv_fatal.ml; '
             'harness/h_fatal.cpp and the file reader in checks/c11.py. Modelled, not verified: QFile buffering '
             '(arbitrary policy in the theorems, Qt 5.15 16 KiB policy in the run), the kernel keeping written data of a '
             'process that aborts, abort() itself, Qt calling abort() after the message handler returns. Filters '
@@ -28,14 +32,17 @@ META = {
 }
 
 MODEL_TREE = {'ONE': 'oooF', 'ONER': 'oooR', 'FLU': 'oFR', 'FLUN': 'oF(F)', 'FLUT': 'o(gF)F', 'FLUC': 'o(yR)F', 'FLUB': 'oBF',
-              'ONEQ': 'oooR', 'ONEA1': 'oooF', 'ONEA2': 'oooF'}
+              'ONEQ': 'oooR', 'ONEA1': 'oooF', 'ONEA2': 'oooF', 'FLU1': 'oF', 'FLUP': 'oF(l)'}
 KIND_NAMES = {'oF': 'plain', 'oR': 'rotating', 'oFR': 'both', 'o(F)': 'nested', 'oF(oR(F))': 'nested-deep',
               'ONE': 'one-line configure(path, sync)', 'ONER': 'one-line configure(path, maxFileSize, sync)',
               'FLU': 'fluent format().sendToFile().sendToFile(limit)', 'FLUN': 'fluent with pipeline()',
               'oD': 'rotating daily without size limit', 'or': 'rotating with 64 KiB limit (rotates)', 'F': 'no formatter',
               'FLUT': 'fluent: pipeline().filter(debug only).sendToFile(trace).end().sendToFile(app)',
               'FLUC': 'fluent: pipeline().filterCategory(debug only).sendToFile(trace, limit).end().sendToFile(app)',
-              'FLUB': 'fluent: sendToFile(/dev/full).sendToFile(app)', 'onF': 'top-level filter rejecting the fatal message',
+              'FLUB': 'fluent: sendToFile(/dev/full).sendToFile(app)',
+              'FLU1': 'fluent: format().sendToFile(app), reconfigured at run time',
+              'FLUP': 'fluent: format().sendToFile(app).pipeline().filterLevel(warning), the nested pipeline gets its file at run time',
+              'oF(l)': 'main file and a nested pipeline behind LevelFilter(warning)', 'oR(l)': 'rotating main file and a nested pipeline behind LevelFilter(warning)', 'onF': 'top-level filter rejecting the fatal message',
               'olF': 'LevelFilter(warning) before the file sink', 'o(eF)(xR)': 'even/odd ids split over two files',
               'oB(F)R': 'full device before a nested and a rotating sink', 'oNFR': 'null handler entry before the file sinks', 'oq': 'rotating sink, 1000-byte limit, explicit flush() before the rotation',
               'oQ': 'rotating sink whose rotation rename fails (name occupied by a directory)',
@@ -53,8 +60,11 @@ def text_of(i, size):
     return s
 
 
+OPS = '+^~!'   # reconfiguration items: append handler, sendToFile, remove handler, clearSinks
+
+
 def events(msgs):
-    """messages and explicit flushes ('f', 0) in order, mixed types left symbolic"""
+    """messages, explicit flushes ('f', 0) and reconfigurations (op char, '<path>:<arg>') in order, mixed types left symbolic"""
     out = []
     if msgs in ('-', ''):
         return out
@@ -62,15 +72,17 @@ def events(msgs):
         t, body = it[0], it[1:]
         if t == 'f':
             out.append(('f', 0)); continue
+        if t in OPS:
+            out.append((t, body)); continue
         if '*' in body:
             sz, cnt = body.split('*')
             out += [(t, int(sz))] * int(cnt)
         else:
             out.append((t, int(body)))
-    # resolve the mixed type by message number (flushes take no number)
+    # resolve the mixed type by message number (flushes and reconfigurations take no number)
     res, i = [], 0
     for t, sz in out:
-        if t == 'f':
+        if t == 'f' or t in OPS:
             res.append((t, sz)); continue
         res.append(('diwc'[i % 4] if t == 'm' else t, sz)); i += 1
     return res
@@ -78,7 +90,7 @@ def events(msgs):
 
 def expand(msgs):
     """the messages only"""
-    return [e for e in events(msgs) if e[0] != 'f']
+    return [e for e in events(msgs) if e[0] != 'f' and e[0] not in OPS]
 
 
 def expand_old(msgs):
@@ -96,17 +108,20 @@ def expand_old(msgs):
 
 
 def compress(ml):
-    """inverse of expand (run-length)"""
+    """inverse of events (run-length for messages)"""
     if not ml:
         return '-'
     out, i = [], 0
     while i < len(ml):
+        t = ml[i][0]
+        if t == 'f':
+            out.append('f'); i += 1; continue
+        if t in OPS:
+            out.append(t + ml[i][1]); i += 1; continue
         j = i
         while j < len(ml) and ml[j] == ml[i]:
             j += 1
-        out.append(('f' if ml[i][0] == 'f' else '%s%d' % ml[i]) + ('*%d' % (j - i) if j - i > 1 and ml[i][0] != 'f' else ''))
-        if ml[i][0] == 'f':
-            j = i + 1
+        out.append('%s%d' % ml[i] + ('*%d' % (j - i) if j - i > 1 else ''))
         i = j
     return ','.join(out)
 
@@ -139,7 +154,7 @@ def fault_ids(sc):
         return ids
     for it in sc['msgs'].split(','):
         t, body = it[0], it[1:]
-        if t == 'f':
+        if t == 'f' or t in OPS:
             continue
         n = int(body.split('*')[1]) if '*' in body else 1
         if t == 'z':
@@ -166,14 +181,35 @@ def forgive_faults(files, reference, zids):
     return ';'.join(out)
 
 
+SINK_LETTERS = 'FRrDBqQ'
+
+
+def sink_letters(sc):
+    """the file sinks ever created, in creation order: those of the tree (depth-first), then those of the handlers
+    appended by reconfiguration items"""
+    t = MODEL_TREE.get(sc['tree'], sc['tree'])
+    out = [c for c in t if c in SINK_LETTERS]
+    for e in events(sc.get('msgs', '-')):
+        if e[0] in '+^':
+            out += [c for c in e[1].partition(':')[2] if c in SINK_LETTERS]
+    return out
+
+
 def nsinks(tree):
     t = MODEL_TREE.get(tree, tree)
-    return sum(1 for c in t if c in 'FRrDBqQ')
+    return sum(1 for c in t if c in SINK_LETTERS)
 
 
 def broken_sinks(tree):
     t = MODEL_TREE.get(tree, tree)
-    return [k for k, c in enumerate(c for c in t if c in 'FRrDBqQ') if c == 'B']
+    return [k for k, c in enumerate(c for c in t if c in SINK_LETTERS) if c == 'B']
+
+
+def gone_of(layout):
+    """sink numbers the model marks G: no longer part of the configuration when the process dies"""
+    if not layout or layout == '?':
+        return set()
+    return {k for k, f in enumerate(layout.split(';')) if f == 'G'}
 
 
 def read_sink(d, k, sc):
@@ -208,16 +244,17 @@ def read_sink(d, k, sc):
     return ids, defects
 
 
-def run_impl(impl, sc):
+def run_impl(impl, sc, gone=()):
     d = tempfile.mkdtemp(prefix='c11_')
     try:
         p = subprocess.run([impl, d, sc['tree'], sc['end'], sc['thread'], sc['msgs'], str(sc['fatalsize'])],
                            stdout=subprocess.DEVNULL, stderr=subprocess.DEVNULL, timeout=300)
         files, defects = [], []
-        brk = broken_sinks(sc['tree'])
-        for k in range(nsinks(sc['tree'])):
-            if k in brk:
+        for k, c in enumerate(sink_letters(sc)):
+            if c == 'B':
                 files.append('X'); continue
+            if k in gone:      # removed from the logger before the end: not one of its file sinks any more
+                files.append('G'); continue
             ids, df = read_sink(d, k, sc)
             files.append(ranges(ids)); defects += ['s%d: %s' % (k, x) for x in df]
         return {'rc': p.returncode, 'files': ';'.join(files), 'defects': defects[:5]}
@@ -275,6 +312,25 @@ def scenarios(chk):
     for tree in ('ONEA1', 'ONEA2'):
         for ml in ([], [('m', 10)] * 3, [('m', 20480)] * 3):
             add(tree, 'fatal', 'main', ml, 13, 'became-synchronous')
+    # the logger is RECONFIGURED at run time after an explicit flush(): the file sink is replaced (same number of
+    # top-level handlers), or a file sink is added inside a nested pipeline that already exists; then a few small
+    # messages (they stay in QFile's buffer) and the fatal one.  A flush that remembers which sinks it found at an
+    # earlier call misses the new sink.  Controls: the same without the earlier flush, with 20 KiB messages, killed.
+    def addraw(tree, end, thread, msgs, fs, origin):
+        out.append({'tree': tree, 'end': end, 'thread': thread, 'msgs': msgs, 'fatalsize': fs, 'origin': origin})
+    for tree, recfg in (('oF', '~:1,+:F'), ('oR', '~:1,+:R'), ('oF', '~:1,+:R'), ('oFR', '~:1,~:1,+:R,+:F'),
+                        ('oF(l)', '+2:F'), ('oR(l)', '+2:R'), ('oF(oR(F))', '+2.2:F'), ('oF(l)', '~:1,+:(F)'),
+                        ('FLU1', '!:,^:F'), ('FLU1', '!:,^:R'), ('FLUP', '^2:F'), ('FLUP', '^2:R'), ('FLUN', '^2:F'),
+                        ('FLU', '!:,^:F,^:R')):
+        for th in ('main', 'sec'):
+            addraw(tree, 'fatal', th, 'm10*2,f,%s,m10*3' % recfg, 13, 'reconfigure-after-flush')
+        addraw(tree, 'fatal', 'main', 'm10,f,m10,f,%s,m10*2,f,%s' % (recfg, 'm10*2' if thorough else 'm10'), 13, 'reconfigure-after-flush')
+        addraw(tree, 'fatal', 'main', 'f,%s' % recfg, 13, 'reconfigure-after-flush')
+        addraw(tree, 'fatal', 'main', 'm10*2,%s,m10*3' % recfg, 13, 'reconfigure')
+        addraw(tree, 'fatal', 'main', 'm20480*2,f,%s,m20480*2,m10' % recfg, 20480, 'reconfigure-after-flush')
+        if tree not in MODEL_TREE:
+            addraw(tree, 'kill', 'main', 'm10*2,f,%s,m10*3' % recfg, 13, 'reconfigure-kill')
+            addraw(tree, 'kill', 'main', 'm10*2,f,%s,m10*3,f,m10' % recfg, 13, 'reconfigure-kill')
     # random trees and histories aimed at the case splits: buffer overflow (pre-flush), blocks above the
     # chunk size (bypass), exactly the chunk size, all message types, deeper nesting, several sinks
     def rtree(depth):
@@ -294,8 +350,94 @@ def scenarios(chk):
             size = rng.choice([8, 10, 100, 1000, 5000, CHUNK - 2, CHUNK - 1, CHUNK, CHUNK + 1, 20480, 40000])
             ml.append((rng.choice('dwci'), size))
         fs = rng.choice([8, 13, 100, CHUNK - 1, CHUNK, 20480])
-        add(tree, 'kill' if (n % 4 == 3 and k > 0) else 'fatal', rng.choice(['main', 'sec', 'qt']), ml, fs, 'random')
+        origin = 'random'
+        if n % 3 == 1:
+            # explicit flushes and reconfigurations at random places of the history
+            ml = random_reconfiguration(rng, tree, ml)
+            origin = 'random-reconfigure'
+        add(tree, 'kill' if (n % 4 == 3 and k > 0) else 'fatal', rng.choice(['main', 'sec', 'qt']), ml, fs, origin)
     return out
+
+
+def parse_shape(tree):
+    """tree letters -> nested lists (a list = a pipeline)"""
+    stack = [[]]
+    for c in tree:
+        if c == '(':
+            new = []
+            stack[-1].append(new); stack.append(new)
+        elif c == ')':
+            if len(stack) > 1:
+                stack.pop()
+        else:
+            stack[-1].append(c)
+    return stack[0]
+
+
+def pipelines_of(shape, path=()):
+    yield path, shape
+    for i, h in enumerate(shape):
+        if isinstance(h, list):
+            yield from pipelines_of(h, path + (i,))
+
+
+def random_reconfiguration(rng, tree, ml):
+    """insert 1-3 reconfigurations (append a sink / a nested pipeline with a sink, remove a handler, replace a sink in
+    place, clearSinks + sendToFile) and 0-2 explicit flushes; the shape is tracked so that the paths are valid"""
+    shape = parse_shape(tree)
+    total = len([c for c in tree if c in SINK_LETTERS])
+    has_null = 'N' in tree
+    ev = list(ml)
+    # positions are drawn from the end so that the history after the last reconfiguration is often short
+    items = []
+    for _ in range(rng.randint(1, 3)):
+        if total >= 7:
+            break
+        path, pl = rng.choice(list(pipelines_of(shape)))
+        ps = '.'.join(map(str, path))
+        kind = rng.choice(['append', 'append', 'replace', 'remove', 'nest', 'clear', 'sendto'])
+        sinks_here = [i for i, h in enumerate(pl) if isinstance(h, str) and h in SINK_LETTERS]
+        if kind == 'replace' and sinks_here:
+            i = rng.choice(sinks_here)
+            c = rng.choice('FR')
+            del pl[i]; pl.append(c); total += 1
+            items.append([('~', '%s:%d' % (ps, i)), ('+', '%s:%s' % (ps, c))])
+        elif kind == 'remove' and pl:
+            i = rng.randrange(len(pl))
+            if pl[i] != 'N':
+                del pl[i]
+            items.append([('~', '%s:%d' % (ps, i))])
+        elif kind == 'nest':
+            c = rng.choice(['(F)', '(gF)', '(oR)'])
+            pl.append(parse_shape(c)[0]); total += 1
+            items.append([('+', '%s:%s' % (ps, c))])
+        elif kind == 'clear' and not has_null:
+            c = rng.choice('FR')
+            pl[:] = [h for h in pl if not (isinstance(h, str) and h in SINK_LETTERS)] + [c]; total += 1
+            items.append([('!', '%s:' % ps), ('^', '%s:%s' % (ps, c))])
+        elif kind == 'sendto':
+            c = rng.choice('FR')
+            pl.append(c); total += 1
+            items.append([('^', '%s:%s' % (ps, c))])
+        else:
+            c = rng.choice('FFRD')
+            pl.append(c); total += 1
+            items.append([('+', '%s:%s' % (ps, c))])
+    # place the groups in order at increasing positions; a flush in front of the first group half of the time
+    pos = sorted(rng.randint(0, len(ev)) for _ in items)
+    if items and rng.random() < 0.6:
+        pos = [max(pos[0], len(ev) - rng.randint(0, 4))] + pos[1:]
+        pos.sort()
+    res, k = [], 0
+    flush_first = rng.random() < 0.7
+    for i in range(len(ev) + 1):
+        while k < len(items) and pos[k] == i:
+            if (k == 0 and flush_first) or rng.random() < 0.2:
+                res.append(('f', 0))
+            res += items[k]; k += 1
+        if i < len(ev):
+            res.append(ev[i])
+    return res
 
 
 def boundary_hits(sc):
@@ -314,6 +456,16 @@ def boundary_hits(sc):
     return pre, bypass, exact
 
 
+def reconf_after_flush(sc):
+    seen = False
+    for e in events(sc['msgs']):
+        if e[0] == 'f':
+            seen = True
+        elif e[0] in OPS and seen:
+            return True
+    return False
+
+
 def thorough_tier(chk):
     return chk.tier == 'thorough'
 
@@ -326,7 +478,10 @@ def run():
                    'extraction ExtrOcamlBasic, no Extract Constant; ocaml/drv_fatal.ml',
                    'harness/h_fatal.cpp, the log-file reader of checks/c11.py',
                    'modelled, not verified: QFile write buffering, the kernel page cache surviving abort(), Qt aborting after the handler returns']
-    chk.assumptions = ['synchronous logger (own thread not running), library built without QTLOGGER_NO_THREAD',
+    chk.assumptions = ['synchronous logger (own thread not running; by construction in the QTLOGGER_NO_THREAD configuration, which is built and run as well)',
+                       'reconfigurations happen between two messages (not concurrently with logging), through Pipeline::append / remove, '
+                       'SimplePipeline::sendToFile and SortedPipeline::clearSinks (the latter on pipelines without null entries); a sink removed '
+                       'from the logger is no longer one of its file sinks and its file is not checked',
                        'filters are stateless predicates of the message (function, level, category, regexp filters); a duplicate filter is outside the model',
                        'a file sink on a device that keeps nothing (/dev/full) has no file to check; it must not keep other sinks from being flushed',
                        'process death, not power loss: data handed to the kernel by write() counts as in the file',
@@ -343,7 +498,7 @@ def run():
         chk.broke('the extracted model crashed', {'kind': 'model-crash', 'stderr': err_m[-500:]})
         out_m = out_m + ['?'] * (len(scs) - len(out_m))
     with concurrent.futures.ThreadPoolExecutor(max_workers=min(8, vlib.NCPU)) as ex:
-        res = list(ex.map(lambda s: run_impl(impl, s), scs))
+        res = list(ex.map(lambda i: run_impl(impl, scs[i], gone_of(out_m[i])), range(len(scs))))
     # oracle on the implementation's files (fatal scenarios only: the property speaks of a fatal message)
     fat = [i for i, s in enumerate(scs) if s['end'] == 'fatal']
     _, exp_all, _ = vlib.run_lines(model, [model_line(scs[i]) for i in fat], ['expected'])
@@ -368,49 +523,54 @@ def run():
         if r['files'] != m:
             dis.append(i)
 
-    def run_canon(sc):
-        r = run_impl(impl, sc)
+    def run_canon(sc, exe=None):
         _, ex, _ = vlib.run_lines(model, [model_line(sc)], ['expected'])
+        r = run_impl(exe or impl, sc, gone_of(ex[0] if ex else None))
         if sc['tree'].startswith('ONE'):
             r['files'] = forgive_faults(r['files'], ex[0] if ex else None, fault_ids(sc))
         return r, (ex[0] if ex else '?')
 
-    def fails(sc):
+    def fails(sc, exe=None):
         if sc['thread'] == 'busy' and sc['msgs'] in ('-', ''):
             return False
-        r, _ = run_canon(sc)
+        r, _ = run_canon(sc, exe)
         _, v, _ = vlib.run_lines(model, ['%s | %s' % (model_line(sc), r['files'])], ['oracle'])
         return (sc['end'] == 'fatal' and (not v or v[0] != '1' or r['rc'] != -6)) or bool(r['defects'])
 
-    if falsified:
-        # smallest failing scenario, then fewer/smaller preceding messages
-        i = min(falsified, key=lambda j: (len(expand(scs[j]['msgs'])), len(scs[j]['tree'])))
-        sc = dict(scs[i])
-        ml = vlib.shrink_list(events(sc['msgs']), lambda cand: fails(dict(sc, msgs=compress(cand))), max_steps=40)
+    def report_falsified(falsified_scs, exe, build, model_mode):
+        """shrink the smallest falsified scenario on the given build of the library and report it"""
+        sc = dict(min(falsified_scs, key=lambda x: (len(events(x['msgs'])), len(x['tree']))))
+        sc.pop('origin', None)
+        ml = vlib.shrink_list(events(sc['msgs']), lambda cand: fails(dict(sc, msgs=compress(cand)), exe), max_steps=40)
         sc['msgs'] = compress(ml)
-        if sc['thread'] != 'main' and fails(dict(sc, thread='main')):
+        if sc['thread'] != 'main' and fails(dict(sc, thread='main'), exe):
             sc['thread'] = 'main'
-        r, ex0 = run_canon(sc)
-        ex = [ex0]
-        _, mo, _ = vlib.run_lines(model, [model_line(sc)])
-        k = len([e for e in ml if e[0] != 'f'])
+        r, ex0 = run_canon(sc, exe)
+        _, mo, _ = vlib.run_lines(model, [model_line(sc)], [model_mode])
         death = {-6: 'SIGABRT', -11: 'SIGSEGV', -9: 'SIGKILL'}.get(r['rc'], 'exit status %r' % (r['rc'],))
-        chk.fail('after qFatal the files of the file sinks lack records that reached them: tree %s (%s), preceding messages %s, fatal from the %s thread: '
+        chk.fail('after qFatal the files of the file sinks lack records that reached them: %stree %s (%s), history %s, fatal from the %s thread: '
                  'the process died by %s (abort after the fatal message = SIGABRT), files hold [%s], the property demands [%s] '
-                 '(per file sink in depth-first order; X = sink on /dev/full)'
-                 % (sc['tree'], KIND_NAMES.get(sc['tree'], 'handler tree'), sc['msgs'], sc['thread'], death, r['files'], ex[0] if ex else '?'),
+                 '(per file sink in creation order; X = sink on /dev/full, G = sink removed from the logger before the end)'
+                 % ('library built with -DQTLOGGER_NO_THREAD: ' if build == 'nth' else '', sc['tree'], KIND_NAMES.get(sc['tree'], 'handler tree'),
+                    sc['msgs'], sc['thread'], death, r['files'], ex0),
                  {'kind': 'records-missing-after-fatal', 'tree': sc['tree'], 'configuration': KIND_NAMES.get(sc['tree'], 'handler tree'),
+                  'build': build or 'default', 'library_configuration': '-DQTLOGGER_NO_THREAD (single-threaded)' if build == 'nth' else 'default (threads)',
                   'end': sc['end'], 'thread': sc['thread'], 'msgs': sc['msgs'], 'fatalsize': sc['fatalsize'],
-                  'records_in_files_per_sink': r['files'], 'expected_per_sink': ex[0] if ex else None,
+                  'records_in_files_per_sink': r['files'], 'expected_per_sink': ex0,
                   'tree_legend': 'F R r D file sinks, B file sink on /dev/full, g n e x l y filters (debug only, not fatal, even ids, odd ids, '
                                  '>= warning, category rule debug only), o formatter, N null handler entry, S handler sleeping 2 s on non-main '
                                  'threads, ( ) nested pipeline; message i has type diwc[i%4] for m; z = logged while the device rejects writes; '
-                                 'f = explicit flush(); q/Q rotating sink with 1000-byte limit (Q: rename blocked); thread busy = last preceding message held inside the logger by a helper thread when main raises the fatal',
+                                 'f = explicit flush(); q/Q rotating sink with 1000-byte limit (Q: rename blocked); thread busy = last preceding message held inside the logger by a helper thread when main raises the fatal; '
+                                 'reconfiguration between two messages: +<path>:<handler> append, ^<path>:F|R sendToFile, ~<path>:<k> remove the k-th handler, '
+                                 '!<path>: clearSinks(); <path> = handler indices from the logger, joined by dots (empty = the logger)',
                   'died_by': death,
                   'byte_defects': r['defects'], 'model_with_translated_source_predicts': mo[0] if mo else None,
-                  'exit_status': r['rc'], 'falsified_scenarios': len(falsified),
-                  'how': 'build/h_fatal <dir> <tree> <end> <thread> <msgs> <fatalsize>; see harness/h_fatal.cpp'},
+                  'exit_status': r['rc'], 'falsified_scenarios': len(falsified_scs),
+                  'how': 'build/h_fatal%s <dir> <tree> <end> <thread> <msgs> <fatalsize>; see harness/h_fatal.cpp' % ('.nth' if build == 'nth' else '')},
                  kind='records-missing-after-fatal')
+
+    if falsified:
+        report_falsified([scs[i] for i in falsified], impl, '', 'model')
     if dis:
         i = min(dis, key=lambda j: len(expand(scs[j]['msgs'])))
         chk.broke('correspondence: model (with the translated source) and the real files differ in %d scenarios, e.g. %s: files [%s], model [%s]'
@@ -421,12 +581,59 @@ def run():
         i = wrong_death[0]
         chk.broke('harness did not die as scripted (exit status %r) in %d scenarios' % (res[i]['rc'], len(wrong_death)),
                   dict(scs[i], kind='harness', exit_status=res[i]['rc']))
+
+    # ---- the documented single-threaded configuration: library and harness built with -DQTLOGGER_NO_THREAD ----
+    # (a NO_THREAD logger is synchronous by construction; only the main thread may log).  A representative part of
+    # the scenarios: every front-end and tree kind, below/above QFile's buffer, reconfigurations, SIGKILL controls.
+    nth = vlib.build_harness('fatal', 'nth')
+    heavy_nth = ('oF', 'oR', 'ONE', 'FLU')
+    sub_n = [i for i, s in enumerate(scs)
+             if s['thread'] == 'main' and s['tree'] not in ('ONEA1', 'ONEA2') and 'S' not in s['tree']
+             and (thorough_tier(chk) or len(expand(s['msgs'])) <= 40 or (s['tree'] in heavy_nth and s['origin'] == 'matrix' and s['fatalsize'] == 13))]
+    _, out_n, err_n = vlib.run_lines(model, [model_line(scs[i]) for i in sub_n], ['model-nth'])
+    if len(out_n) != len(sub_n):
+        chk.broke('the extracted model (NO_THREAD configuration) crashed', {'kind': 'model-crash', 'stderr': err_n[-500:]})
+        out_n = out_n + ['?'] * (len(sub_n) - len(out_n))
+    with concurrent.futures.ThreadPoolExecutor(max_workers=min(8, vlib.NCPU)) as ex:
+        res_n = list(ex.map(lambda a: run_impl(nth, scs[a[0]], gone_of(a[1])), zip(sub_n, out_n)))
+    fat_n = [(i, r) for i, r in zip(sub_n, res_n) if scs[i]['end'] == 'fatal']
+    for i, r in fat_n:
+        if scs[i]['tree'].startswith('ONE'):
+            r['files'] = forgive_faults(r['files'], exp_of.get(i), fault_ids(scs[i]))
+    _, verd_n, _ = vlib.run_lines(model, ['%s | %s' % (model_line(scs[i]), r['files']) for i, r in fat_n], ['oracle'])
+    verdict_n = {i: v for (i, _), v in zip(fat_n, verd_n)}
+    fals_n, dis_n, death_n = [], [], []
+    for i, r, m in zip(sub_n, res_n, out_n):
+        s = scs[i]
+        if s['end'] == 'fatal' and (verdict_n.get(i) != '1' or r['rc'] != -6) or r['defects']:
+            fals_n.append(i)
+        if r['files'] != m:
+            dis_n.append(i)
+        if s['end'] != 'fatal' and r['rc'] != -9:
+            death_n.append(i)
+    if fals_n:
+        report_falsified([scs[i] for i in fals_n], nth, 'nth', 'model-nth')
+    if dis_n:
+        i = min(dis_n, key=lambda j: len(expand(scs[j]['msgs'])))
+        k = sub_n.index(i)
+        chk.broke('correspondence (library built with -DQTLOGGER_NO_THREAD): model (source as compiled in that configuration) and the real files differ in %d scenarios, e.g. %s: files [%s], model [%s]'
+                  % (len(dis_n), json.dumps({k2: scs[i][k2] for k2 in ('tree', 'end', 'thread', 'msgs', 'fatalsize')}), res_n[k]['files'], out_n[k]),
+                  dict(scs[i], kind='correspondence-no-thread', build='nth', implementation=res_n[k]['files'], model=out_n[k]))
+    if death_n and not fals_n:
+        i = death_n[0]
+        chk.broke('NO_THREAD harness did not die as scripted (exit status %r) in %d scenarios' % (res_n[sub_n.index(i)]['rc'], len(death_n)),
+                  dict(scs[i], kind='harness', build='nth', exit_status=res_n[sub_n.index(i)]['rc']))
+    chk.cov['no_thread_build'] = {'scenarios': len(sub_n), 'fatal_scenarios_oracle_evaluated': len(fat_n), 'oracle_falsified': len(fals_n),
+                                  'disagreements_model_vs_impl': len(dis_n),
+                                  'by_origin': {o: sum(1 for i in sub_n if scs[i]['origin'] == o) for o in sorted({scs[i]['origin'] for i in sub_n})},
+                                  'with_more_than_16KiB_buffered_or_bypass': sum(1 for i in sub_n if any(boundary_hits(scs[i])[:2])),
+                                  'with_reconfiguration': sum(1 for i in sub_n if any(e[0] in OPS for e in events(scs[i]['msgs'])))}
     if thorough_tier(chk):
         # the single-header distribution (qtlogger.h) must behave the same: small scenarios of the matrix
         hdr = vlib.build_harness('fatal', 'hdr')
         sub = [i for i, s in enumerate(scs) if s['origin'] != 'random' and len(expand(s['msgs'])) <= 3]
         with concurrent.futures.ThreadPoolExecutor(max_workers=min(8, vlib.NCPU)) as ex:
-            res_h = list(ex.map(lambda i: run_impl(hdr, scs[i]), sub))
+            res_h = list(ex.map(lambda i: run_impl(hdr, scs[i], gone_of(out_m[i])), sub))
         bad_h = [i for i, r in zip(sub, res_h) if r['files'] != res[i]['files'] or r['defects']]
         chk.cov['header_only_scenarios'] = len(sub)
         chk.cov['header_only_differences'] = len(bad_h)
@@ -454,6 +661,10 @@ def run():
         'scenarios_with_null_handler_entry': sum(1 for s in scs if 'N' in s['tree'] and s['tree'] not in MODEL_TREE),
         'scenarios_with_transient_device_fault': sum(1 for s in scs if fault_ids(s)),
         'scenarios_with_explicit_flush': sum(1 for s in scs if any(e[0] == 'f' for e in events(s['msgs']))),
+        'scenarios_with_reconfiguration': sum(1 for s in scs if any(e[0] in OPS for e in events(s['msgs']))),
+        'scenarios_reconfigured_after_an_explicit_flush': sum(1 for s in scs if reconf_after_flush(s)),
+        'reconfiguration_items': {k: sum(1 for s in scs for e in events(s['msgs']) if e[0] == k) for k in OPS},
+        'scenarios_where_a_sink_left_the_configuration': sum(1 for m in out_m if 'G' in m.split(';')),
         'scenarios_with_blocked_rotation_rename': sum(1 for s in scs if 'Q' in s['tree']),
         'scenarios_logger_became_synchronous': sum(1 for s in scs if s['tree'] in ('ONEA1', 'ONEA2')),
         'scenarios_with_busy_logger': sum(1 for s in scs if s['thread'] == 'busy'),
@@ -479,14 +690,15 @@ def replay(path):
     if not r.get('tree'):
         print(json.dumps(r, indent=1)); return 0
     vlib.gen_src(['fatal'])
-    model = vlib.build_model('fatal'); impl = vlib.build_harness('fatal')
+    build = r.get('build') if r.get('build') in ('nth', 'hdr', 'san') else ''
+    model = vlib.build_model('fatal'); impl = vlib.build_harness('fatal', build) if build else vlib.build_harness('fatal')
     sc = {'tree': r['tree'], 'end': r.get('end', 'fatal'), 'thread': r.get('thread', 'main'), 'msgs': r.get('msgs', '-'),
           'fatalsize': int(r.get('fatalsize', 13))}
-    res = run_impl(impl, sc)
-    k = len(expand(sc['msgs']))
-    print('scenario        ', json.dumps(sc))
+    demands = vlib.run_lines(model, [model_line(dict(sc, end='fatal'))], ['expected'])[1]
+    res = run_impl(impl, sc, gone_of(demands[0] if demands else None))
+    print('scenario        ', json.dumps(sc), '(library built with -DQTLOGGER_NO_THREAD)' if build == 'nth' else '')
     print('implementation  ', res)
-    print('model           ', vlib.run_lines(model, [model_line(sc)])[1])
-    print('property demands', vlib.run_lines(model, [model_line(dict(sc, end='fatal'))], ['expected'])[1])
+    print('model           ', vlib.run_lines(model, [model_line(sc)], ['model-nth' if build == 'nth' else 'model'])[1])
+    print('property demands', demands)
     print('oracle on impl  ', vlib.run_lines(model, ['%s | %s' % (model_line(sc), res['files'])], ['oracle'])[1])
     return 0
